@@ -269,6 +269,8 @@ func (fi *FuncInfo) objClass0(v ssa.Value) Class {
 		return fi.ObjClass(v.X)
 	case *ssa.ChangeType:
 		return fi.ObjClass(v.X)
+	case *ssa.ChangeInterface:
+		return fi.ObjClass(v.X)
 	case *ssa.Convert:
 		// string <-> []byte conversions copy.
 		return Class{Root: "L:" + fi.ID(v)}
@@ -381,4 +383,301 @@ func itoa(i int) string {
 		b[n] = '-'
 	}
 	return string(b[n:])
+}
+
+// RefClass refines ObjClass/AddrClass for pointers, slices and addresses that
+// were obtained through a local variable: it follows the stores that reach the
+// load of the local (flow-sensitively) so that a slice header copied out of
+// shared state keeps the class of the shared backing store ("origin tags",
+// DESIGN.md 1.10).
+func (fi *FuncInfo) RefClass(v ssa.Value) Class {
+	base := fi.ObjClass(v)
+	if _, isAddr := v.(*ssa.FieldAddr); isAddr {
+		base = fi.AddrClass(v)
+	}
+	if _, isAddr := v.(*ssa.IndexAddr); isAddr {
+		base = fi.AddrClass(v)
+	}
+	if !base.IsLocal() {
+		return base
+	}
+	var rev []string
+	cur := v
+walk:
+	for {
+		switch x := cur.(type) {
+		case *ssa.Slice:
+			cur = x.X
+		case *ssa.ChangeType:
+			cur = x.X
+		case *ssa.IndexAddr:
+			rev = append(rev, "[]")
+			cur = x.X
+		case *ssa.FieldAddr:
+			rev = append(rev, fieldName(x.X.Type(), x.Field))
+			cur = x.X
+		case *ssa.Index:
+			rev = append(rev, "[]")
+			cur = x.X
+		case *ssa.Lookup:
+			rev = append(rev, "[]")
+			cur = x.X
+		case *ssa.Field:
+			rev = append(rev, fieldName(x.X.Type(), x.Field))
+			cur = x.X
+		default:
+			break walk
+		}
+	}
+	ld, ok := cur.(*ssa.UnOp)
+	if !ok || ld.Op.String() != "*" {
+		return base
+	}
+	lcls := fi.AddrClass(ld.X)
+	if !lcls.IsLocal() {
+		return base
+	}
+	root, ok := fi.contentOrigin(ld, lcls, 0)
+	if !ok || root.IsLocal() || root.IsNil() {
+		return base
+	}
+	out := root
+	for i := len(rev) - 1; i >= 0; i-- {
+		out = out.add(rev[i])
+	}
+	return out
+}
+
+// contentOrigin finds the non-local class (if any) that the value loaded by ld
+// from the local class lcls may refer to.
+func (fi *FuncInfo) contentOrigin(ld *ssa.UnOp, lcls Class, depth int) (Class, bool) {
+	if depth > 4 {
+		return Class{Root: "O:deep"}, true
+	}
+	fi.ensureMem()
+	reach := fi.ReachingAt(ld)
+	var found *Class
+	for d := range reach {
+		if !fi.MayAlias(d.Cls, lcls) {
+			continue
+		}
+		st, isStore := d.Instr.(*ssa.Store)
+		if !isStore {
+			// written by a call or builtin (copy, append in place): unknown
+			// content unless it only copies values without references.
+			continue
+		}
+		scls := fi.AddrClass(st.Addr)
+		// path of the loaded location relative to the stored location
+		var rel []string
+		if len(lcls.Path) > len(scls.Path) {
+			rel = lcls.Path[len(scls.Path):]
+		}
+		c := fi.valueOrigin(st.Val, rel, depth)
+		if c.IsLocal() || c.IsNil() {
+			continue
+		}
+		if found == nil {
+			cc := c
+			found = &cc
+		} else if found.String() != c.String() {
+			return Class{Root: "O:" + ld.Type().String()}, true
+		}
+	}
+	if found == nil {
+		return Class{Root: "nil"}, true
+	}
+	return *found, true
+}
+
+// valueOrigin returns the class referred to by component rel of value v.
+func (fi *FuncInfo) valueOrigin(v ssa.Value, rel []string, depth int) Class {
+	switch x := v.(type) {
+	case *ssa.UnOp:
+		if x.Op.String() == "*" {
+			ac := fi.RefClass(x.X)
+			if _, isFA := x.X.(*ssa.FieldAddr); !isFA {
+				if _, isIA := x.X.(*ssa.IndexAddr); !isIA {
+					ac = fi.AddrClass(x.X)
+				}
+			}
+			if ac.IsLocal() {
+				c, _ := fi.contentOrigin(x, Class{Root: ac.Root, Path: append(append([]string{}, ac.Path...), rel...)}, depth+1)
+				return c
+			}
+			for _, r := range rel {
+				ac = ac.add(r)
+			}
+			return ac
+		}
+	case *ssa.Const:
+		return Class{Root: "nil"}
+	case *ssa.Extract:
+		if call, ok := x.Tuple.(*ssa.Call); ok {
+			if fi.P.callResultFresh(&call.Call, x.Index) {
+				return Class{Root: "nil"}
+			}
+			return Class{Root: "O:" + v.Type().String()}
+		}
+	case *ssa.Call:
+		if fi.P.callResultFresh(&x.Call, 0) {
+			return Class{Root: "nil"}
+		}
+		if len(rel) == 0 {
+			return fi.RefClass(v)
+		}
+		return Class{Root: "O:" + v.Type().String()}
+	case *ssa.Field:
+		return fi.valueOrigin(x.X, append([]string{fieldName(x.X.Type(), x.Field)}, rel...), depth)
+	case *ssa.Phi:
+		var res *Class
+		for _, e := range x.Edges {
+			c := fi.valueOrigin(e, rel, depth+1)
+			if c.IsLocal() || c.IsNil() {
+				continue
+			}
+			if res == nil {
+				cc := c
+				res = &cc
+			} else if res.String() != c.String() {
+				return Class{Root: "O:" + v.Type().String()}
+			}
+		}
+		if res == nil {
+			return Class{Root: "nil"}
+		}
+		return *res
+	}
+	if len(rel) == 0 && isRefType(v.Type()) {
+		return fi.RefClass(v)
+	}
+	if !typeHasRefs(v.Type(), 0) {
+		return Class{Root: "nil"}
+	}
+	return Class{Root: "O:" + v.Type().String()}
+}
+
+// typeHasRefs reports whether values of type t contain pointers, slices, maps
+// or other references (so that copying the value can create an alias).
+func typeHasRefs(t types.Type, depth int) bool {
+	if depth > 6 {
+		return true
+	}
+	switch u := t.Underlying().(type) {
+	case *types.Basic:
+		return u.Kind() == types.UnsafePointer
+	case *types.Struct:
+		for i := 0; i < u.NumFields(); i++ {
+			if typeHasRefs(u.Field(i).Type(), depth+1) {
+				return true
+			}
+		}
+		return false
+	case *types.Array:
+		return typeHasRefs(u.Elem(), depth+1)
+	}
+	return true
+}
+
+// callResultFresh reports whether result i of the call is freshly allocated
+// (deeply: it does not reference shared storage).
+func (p *Program) callResultFresh(c *ssa.CallCommon, i int) bool {
+	if sc := c.StaticCallee(); sc != nil && IsRepoFunc(sc) {
+		e := p.effects[sc]
+		return e != nil && i < len(e.Fresh) && e.Fresh[i]
+	}
+	name := CalleeName(c)
+	if name == "" {
+		return false
+	}
+	return externalSpec(name).fresh
+}
+
+// pathCrossings walks a T:-rooted class from its named struct type and
+// reports, for every path component, whether consuming it goes through a
+// reference (pointer, slice or map): the storage after a crossing is a
+// different object from the one that holds the reference.
+func (p *Program) pathCrossings(c Class) ([]bool, bool) {
+	if !strings.HasPrefix(c.Root, "T:") {
+		return nil, false
+	}
+	n := p.namedByShort(strings.TrimPrefix(c.Root, "T:"))
+	if n == nil {
+		return nil, false
+	}
+	var t types.Type = n
+	out := make([]bool, len(c.Path))
+	for i, comp := range c.Path {
+		crossed := false
+		// dereference pointers implicitly
+		for {
+			if pt, ok := t.Underlying().(*types.Pointer); ok {
+				t = pt.Elem()
+				crossed = true
+				continue
+			}
+			break
+		}
+		switch u := t.Underlying().(type) {
+		case *types.Struct:
+			if comp == "[]" {
+				return nil, false
+			}
+			found := false
+			for k := 0; k < u.NumFields(); k++ {
+				if u.Field(k).Name() == comp {
+					t = u.Field(k).Type()
+					found = true
+					break
+				}
+			}
+			if !found {
+				return nil, false
+			}
+		case *types.Array:
+			if comp != "[]" {
+				return nil, false
+			}
+			t = u.Elem()
+		case *types.Slice:
+			if comp != "[]" {
+				return nil, false
+			}
+			t = u.Elem()
+			crossed = true
+		case *types.Map:
+			if comp != "[]" {
+				return nil, false
+			}
+			t = u.Elem()
+			crossed = true
+		default:
+			return nil, false
+		}
+		out[i] = crossed
+	}
+	return out, true
+}
+
+// WriteAffects reports whether a write to class w can change what a read of
+// class c observes (both are prefix related): the longer path's extra
+// components must be stored inline, not behind a reference.
+func (p *Program) WriteAffects(w, c Class) bool {
+	if w.Root != c.Root || !pathPrefix(w.Path, c.Path) {
+		return false
+	}
+	long, short := c, w
+	if len(w.Path) > len(c.Path) {
+		long, short = w, c
+	}
+	cross, ok := p.pathCrossings(long)
+	if !ok {
+		return true
+	}
+	for i := len(short.Path); i < len(long.Path); i++ {
+		if cross[i] {
+			return false
+		}
+	}
+	return true
 }
